@@ -312,6 +312,83 @@ def crop_rules(run, db):
                   '%s is indexed with [%s, %s] whose axes are (%s, %s), expected (0, 1)' % (ast.unparse(s.value), a, b, kept.get(a), kept.get(b)), fi.loc(s))
 
 
+def coord_pure_rules(run, db):
+    """The cached coordinate arrays handed out by x / y / r / t are never written in place by a method that only reads them."""
+    from .purity import shared_entry_mutations
+    srcs = {'self.x', 'self.y', 'self.r', 'self.t', 'self._x', 'self._y', 'self._r', 'self._t'}
+    n = 0
+    for cq in ('prysm._richdata.RichData', 'prysm.interferogram.Interferogram'):
+        ci = db.cls(cq)
+        for name, fi in sorted(ci.methods.items()):
+            n += 1
+            # a write spelled on the attribute itself (`self.x *= s`) is a mutator updating the coordinate on purpose and is judged by the
+            # typestate rule; what must not happen is a write through a LOCAL alias of a cached array in a method that only reads it
+            bad = [(st, nm, r) for st, nm, r in shared_entry_mutations(fi, tables=False, attr_sources=srcs) if nm not in srcs]
+            for st, nm, r in bad:
+                run.finding('C12.cache', fi.qual, norm_stmt(st), '`%s` writes in place through `%s`, an alias of the cached coordinate array %s: the cache now holds a rescaled/edited grid that no longer '
+                            'belongs to the data (every later reader of that coordinate, and a second call of this method, sees it)' % (norm_stmt(st), nm, r), fi.loc(st))
+            if not bad:
+                run.ok('C12.cache', fi.qual, 'cached coordinates are not written through aliases')
+    if n < 30:
+        raise AnalysisError('RichData/Interferogram: fewer than 30 methods scanned for coordinate-cache writes')
+
+
+def fit_rules(run, db):
+    """Tilt / power removal is a least-squares PROJECTION: the right-hand side of the fit is the data itself and the removed
+    term is a combination of fitted basis terms with their own coefficients (then re-fitting the result finds nothing)."""
+    I = 'prysm.interferogram.'
+    f = db.func(I + 'fit_plane')
+    calls = [n for n in walk_no_nested(f.node) if isinstance(n, ast.Call) and ast.unparse(n.func) == 'lstsq']
+    if len(calls) != 1 or len(calls[0].args) != 2 or not isinstance(calls[0].args[0], (ast.List, ast.Tuple)):
+        raise AnalysisError('fit_plane: lstsq([basis...], data) not found')
+    basis = [ast.unparse(e) for e in calls[0].args[0].elts]
+    rhs = calls[0].args[1]
+    run.check(isinstance(rhs, ast.Name) and rhs.id == 'z', 'C12.fit', f.qual, 'right-hand side', 'the plane is fitted to the data itself',
+              'fit_plane fits its basis %s to `%s` instead of the data z: unless everything subtracted from z lies in the span of the basis the fit is no longer a projection, '
+              'and removing tilt twice removes something the second time' % (basis, ast.unparse(rhs)), f.loc(calls[0]))
+    rets = [n for n in walk_no_nested(f.node) if isinstance(n, ast.Return)]
+    asg = {ast.unparse(n.targets[0]): n.value for n in walk_no_nested(f.node) if isinstance(n, ast.Assign)}
+    expr = rets[0].value if rets else None
+    if isinstance(expr, ast.Name) and expr.id in asg:
+        expr = asg[expr.id]
+    terms = []
+
+    def split(e):
+        if isinstance(e, ast.BinOp) and isinstance(e.op, ast.Add):
+            split(e.left)
+            split(e.right)
+        else:
+            terms.append(e)
+    if expr is not None:
+        split(expr)
+    okt = bool(terms)
+    used = []
+    for t in terms:
+        if not (isinstance(t, ast.BinOp) and isinstance(t.op, ast.Mult)):
+            okt = False
+            break
+        a, b = ast.unparse(t.left).replace(' ', ''), ast.unparse(t.right).replace(' ', '')
+        ca, other = (a, b) if a.startswith('coefs[') else (b, a)
+        if not ca.startswith('coefs[') or other not in basis or ca != 'coefs[%d]' % basis.index(other):
+            okt = False
+            break
+        used.append(other)
+    run.check(okt and len(set(used)) == len(used), 'C12.fit', f.qual, 'removed term', 'the returned plane is sum_i coefs[i] * basis[i] over fitted basis terms, each with its own coefficient',
+              'fit_plane returns `%s`, which is not a combination coefs[i]*basis[i] of the fitted basis %s' % (ast.unparse(expr) if expr is not None else '?', basis), f.loc())
+    fs = db.func(I + 'fit_sphere')
+    src = ast.unparse(fs.node).replace(' ', '')
+    oks = 'np.linalg.lstsq(np.stack([focus.flatten(),np.ones(focus.shape)]).T,z[pts].flatten(),rcond=None)[0]' in src and 'sphere=focus*coefs[0]' in src and 'pts=np.isfinite(z)' in src \
+        and 'focus=rho**2' in src
+    run.check(oks, 'C12.fit', fs.qual, 'power fit', 'power is fitted to the valid data with basis [rho^2, 1]; the removed term is coefs[0] * rho^2 over the valid samples', 'fit_sphere fit / removed term changed', fs.loc())
+    fr = db.func(I + 'Interferogram.remove_tiptilt')
+    src = [norm_stmt(st).replace(' ', '') for st in fr.node.body if not (isinstance(st, ast.Expr) and isinstance(st.value, ast.Constant))]
+    run.check(src[:2] == ['plane=fit_plane(self.x,self.y,self.data)', 'self.data-=plane'], 'C12.fit', fr.qual, 'tilt removal', 'the plane fitted to (x, y, data) is subtracted from the data', 'remove_tiptilt wiring changed: %s' % src[:2], fr.loc())
+    fp = db.func(I + 'Interferogram.remove_power')
+    src = [norm_stmt(st).replace(' ', '') for st in fp.node.body if not (isinstance(st, ast.Expr) and isinstance(st.value, ast.Constant))]
+    run.check(src[:2] == ['(mask,sphere)=fit_sphere(self.data)', 'self.data[mask]-=sphere'] or src[:2] == ['mask,sphere=fit_sphere(self.data)', 'self.data[mask]-=sphere'], 'C12.fit', fp.qual, 'power removal',
+              'the sphere fitted to the valid data is subtracted on the valid samples', 'remove_power wiring changed: %s' % src[:2], fp.loc())
+
+
 def check(run, db, tier):
     run.trust('CACHE-b typestate domain (versions of shape / scale / origin, sa/domains/cachestate.py); shape-preserving whitelist for elementwise numpy calls',
               'make_xy_grid(shape, dx) yields x,y of that shape spaced by dx; cart_to_polar(x, y) yields r,t of the same shape, r in the units of x',
@@ -324,6 +401,9 @@ def check(run, db, tier):
     run.group(cache_rules, run, db)
     run.group(stats_rules, run, db)
     run.group(crop_rules, run, db)
+    run.rule('C12.fit', 'tilt/power removal is a least-squares projection: data as right-hand side, removed term = own coefficients times fitted basis terms; methods subtract what was fitted')
+    run.group(fit_rules, run, db)
+    run.group(coord_pure_rules, run, db)
     run.require_instances('C12.cache', 36)
     run.require_instances('C12.stats', 12)
     run.require_instances('C12.crop', 6)
